@@ -1653,31 +1653,32 @@ namespace igris
             // TODO insert optimization
             size_t _pos = pos - m_data;
 
-            reserve(m_size + 1);
-            m_size++;
+            if (_pos == m_size)
+            {
+                emplace_back(igris::forward<Args>(args)...);
+                return m_data + _pos;
+            }
 
+            // The arguments may refer to an element that is about to be
+            // shifted or reallocated: build the new element first.
+            T tmp(igris::forward<Args>(args)...);
+            reserve(m_size + 1);
+
+            // The slot behind the last element is raw storage: it is
+            // constructed, the live slots before it are assigned.
             iterator first = m_data + _pos;
-            iterator last = igris::prev((iterator)end());
-            igris::move_backward(first, last, end());
-            new (first) T(igris::forward<Args>(args)...);
+            iterator last = end();
+            igris::move_constructor(last, igris::move(*(last - 1)));
+            m_size++;
+            igris::move_backward(first, last - 1, last);
+            *first = igris::move(tmp);
 
             return first;
         }
 
         iterator insert(const_iterator pos, const T &value)
         {
-            // TODO insert optimization
-            size_t _pos = pos - m_data;
-
-            reserve(m_size + 1);
-            m_size++;
-
-            iterator first = m_data + _pos;
-            iterator last = igris::prev((iterator)end());
-            igris::move_backward(first, last, (iterator)end());
-            *first = value;
-
-            return first;
+            return emplace(pos, value);
         }
 
         iterator insert(iterator pos, const_iterator first, const_iterator last)
